@@ -20,7 +20,7 @@ class Boom(Exception):
 
 
 def fault_cfg(tier):
-    return (1, 8) if tier == "quick" else (2, 10)
+    return (1, 8) if tier == "quick" else (1, 12)
 
 
 def fault_params(tier):
@@ -144,7 +144,7 @@ FAULT = Harness(
     bound_text=lambda tier: f"all rooted trees with 1..{4 if tier == 'quick' else 5} components x failing component x phase{{creating,preparing,starting}} x "
     "moment{first statement, after a checkpoint} x exception{plain Exception, a ComponentStartError instance} x other components "
     "{no service, start a service task with a slow start-up, with a start-up that never completes, start a task-factory task with a slow start-up}; FIFO schedule with "
-    + ("one deviation within the first 8 decisions" if tier == "quick" else "two deviations (each within 10 decisions)"),
+    + ("one deviation within the first 8 decisions" if tier == "quick" else "one deviation within the first 12 decisions, trees of up to 5 components"),
     oracle="ComponentStartError(phase, path, class) with __cause__ the original exception object; no start() of any ancestor; no startup/watchdog "
     "task alive and nothing of the tree logged after start_component raised (context kept open past the start timeout); an interrupted "
     "service start is gone; everything registered before the failure is torn down LIFO when the surrounding context is left",
